@@ -19,6 +19,7 @@ def handleSexp (line : String) : String :=
   | some (.atom "recognize" :: args) => Driver.cmdRecognize args
   | some (.atom "process" :: args) => Driver.cmdProcess args
   | some (.atom "load" :: args) => Driver.cmdLoad args
+  | some (.atom "loaddoc" :: args) => Driver.cmdLoadDoc args
   | some _ => "bad-op"
   | none => "bad-syntax"
 
